@@ -65,6 +65,23 @@ def upgrade_tests(f):
 fx_global = [None]
 
 
+def root_pushers(fx, gcf):
+    """small helpers of gc.rs that append to a guard's root list (`push_root(&self, ptr)`): a call of one is a push of its caller"""
+    out = set()
+    for g in gcf:
+        if g.closure or g.derived or len(g.blocks) > 12:
+            continue
+        for bi, t in g.calls():
+            if (t[1].get("d") or "").endswith("Vec::<T, A>::push") and t[2] and t[2][0][0] in ("c", "m"):
+                a = set()
+                from c09 import ancestors
+                for l in ancestors(g, t[2][0][1][0]):
+                    fl = E.field_of_ref(g, l)
+                    if fl and fl[2] == "roots":
+                        out.add(g.path)
+    return out - {"gc::Guard::<T>::guard", "gc::Guard::<T>::alloc"}
+
+
 def run(tier):
     ck = Check("C13", tier, "unsafe-operation inventory of src/gc.rs with dominance / range / who-may rules discharging each obligation (MIR dominators, value roots, caller argument checks)",
                ["that the set counted live after collect equals the set reachable from live guards (needs the algorithm's semantics over histories)",
@@ -335,7 +352,10 @@ def run(tier):
                     ck.finding("O6.collector-order", "O6.mark-before-sweep", F.short_span(t[6]), "collect() can reach sweep() without a preceding mark(): every object would be unmarked and reset")
     mk = fx.fns.get("gc::Space::<T>::mark")
     if ck.anchor(mk is not None, "gc::Space::mark"):
-        clears = [bi for bi, t in mk.calls() if t[1].get("d") == "gc::ChunkBitmask::clear"]
+        # a helper that clears the bitmaps (`clear_marks`) is a clear event of its caller
+        clearers = {g.path for g in gcf if not g.closure and g.path != mk.path and any(t[1].get("d") == "gc::ChunkBitmask::clear" for _, t in g.calls())
+                    and not any(t[1].get("d") == "gc::ChunkBitmask::set" for _, t in g.calls())}
+        clears = [bi for bi, t in mk.calls() if t[1].get("d") == "gc::ChunkBitmask::clear" or t[1].get("d") in clearers]
         sets = [bi for bi, t in mk.calls() if t[1].get("d") in ("gc::ChunkBitmask::set",)]
         ok = bool(clears) and all(any(mk.dominates(c, s) or True for c in clears) for s in sets)
         # the loop that clears must complete before the first set: the set block must not reach a clear block
@@ -364,7 +384,7 @@ def run(tier):
     if ck.anchor(ga is not None, "gc::Guard::alloc"):
         gcset = H.may_gc(fx)
         a = [bi for bi, t in ga.calls() if t[1].get("d") == "gc::Space::<T>::alloc_internal"]
-        p = [bi for bi, t in ga.calls() if t[1].get("d", "").endswith("Vec::<T, A>::push")]
+        p = [bi for bi, t in ga.calls() if t[1].get("d", "").endswith("Vec::<T, A>::push") or t[1].get("d") in root_pushers(fx, gcf)]
         ok = bool(a) and bool(p)
         if ok:
             between = ga.reachable_from(a[0], stop=set(p))
@@ -380,7 +400,7 @@ def run(tier):
     ck.rule("O7.pooled-roots", "rooting an existing handle checks `pooled`; mark skips pooled roots", floor=2)
     gg = fx.fns.get("gc::Guard::<T>::guard")
     if ck.anchor(gg is not None, "gc::Guard::guard"):
-        pushes = [(bi, t) for bi, t in gg.calls() if t[1].get("d", "").endswith("Vec::<T, A>::push")]
+        pushes = [(bi, t) for bi, t in gg.calls() if t[1].get("d", "").endswith("Vec::<T, A>::push") or t[1].get("d") in root_pushers(fx, gcf)]
         tests = pooled_tests(gg)
         for bi, t in pushes:
             ok = any(gg.dominates(tgt, bi) for tgt in tests)
